@@ -231,6 +231,10 @@ func (c *Check) Finish() int {
 	for k, v := range c.extra {
 		cov[k] = v
 	}
+	if pk := peakHeap.Load(); pk > 0 {
+		cov["peak_heap_mb_sampled"] = pk >> 20
+		cov["heap_limit_mb"] = MemLimitBytes() >> 20
+	}
 	kf := map[string]int{}
 	ids := make([]string, 0, len(c.known))
 	for id := range c.known {
